@@ -27,6 +27,7 @@ CLAIMED = {
  "C07": (LEVEL + "Traverse is compared with a reference walker built only from Index/ConvertStack/ConvertCondition/Expression on enumerated tree shapes; every index of the path is an unconstrained 64-bit variable and every node's negative/forward index bits are symbolic.", COMMON_NOTE),
  "C14": (LEVEL + "Each consultation of the installed push policy returns an arbitrary boolean (solver variable), so all accept/reject predicates over the batch are covered; a call log is compared with the documented consult-once-in-order-while-room-remains loop; closure verdicts for Valid/IsEqual are symbolic.", COMMON_NOTE),
  "C16": (LEVEL + "Inputs are enumerated as every combination of entry kinds up to the width bound (flat inputs, CONDITION rows, envelopes) plus seeded nested junk trees; built-in operator codes in the input are 8-bit solver variables; the error-or-usable-stack disjunction is asserted on every path.", COMMON_NOTE),
+ "C04": (LEVEL + "Unmarshal's shape, the Marshal reconstruction (parallel structural walk), deep equality of the second Unmarshal and two-way IsEqual are asserted on enumerated trees whose leaf ints/bools, root fold bit and first operator code are solver variables.", COMMON_NOTE),
 }
 _pending = "check not built yet in this round (solver-based harness planned, DESIGN.md §4); not a statement that the technique cannot apply"
 NA = {("C%02d" % i): _pending for i in range(1, 21) if ("C%02d" % i) not in CLAIMED}
